@@ -39,13 +39,12 @@ def gen_cases(l, f, rnd, quick, wide=False):
     s = 1 << f
     lo, hi = -(1 << (l - 1)), (1 << (l - 1)) - 1
     cases = []
-    n = 40 if quick else 400
+    n = 40 if quick else 150
     lim = hi if not wide else (1 << (2 * f - 1))
     vals = sorted({lo if not wide else -lim, -lim // 2, -s, -1, 0, 1, s, s + 1, lim // 2, lim if wide else hi} |
                   {rnd.randint(-lim, lim) for _ in range(8)})
     pairs = [(a, b) for a in vals for b in vals] + [(rnd.randint(-lim, lim), rnd.randint(-lim, lim)) for _ in range(n)]
-    if quick:
-        pairs = rnd.sample(pairs, min(len(pairs), 60))
+    pairs = rnd.sample(pairs, min(len(pairs), 60 if quick else 260))
     for a, b in pairs:
         base = dict(BLANK, a=a, b=b, l=l, f=f)
         if inr(a + b, l):
@@ -161,9 +160,10 @@ def run(ctx):
     wd = tlc.make_workdir()
     try:
         cfgs = configs(ctx.quick, ctx.seed)
-        for (l, f) in (TYPES_Q if ctx.quick else TYPES_T):
+        for ti, (l, f) in enumerate(TYPES_Q if ctx.quick else TYPES_T):
             cases = gen_cases(l, f, rnd, ctx.quick)
-            for (m, t, no_prss) in (cfgs[:3] if ctx.quick else cfgs):
+            # thorough: every type on four of the ten party configurations (rotating), so that all of them are used
+            for (m, t, no_prss) in (cfgs[:3] if ctx.quick else [cfgs[(ti + 3 * j) % len(cfgs)] for j in range(4)]):
                 tag = f'fxp{l}_{f}m{m}t{t}{"n" if no_prss else "p"}'
                 evs = collect(ctx, cases, m, t, no_prss, tag)
                 if evs:
